@@ -35,7 +35,7 @@ var sensorExtremes = []float64{-1e300, -5e6, -273150, -1000, -1, 0, 1, 999, 1000
 func genCurves(fam string, seed uint64, monotone bool) *world.Scenario {
 	sc, r := baseScenario(fam, seed)
 	sc.NoControllers, sc.NoMonitors = true, true
-	sc.Horizon = sec(3600)
+	sc.Horizon = sec(600000) // nothing is periodic in these worlds: virtual days cost nothing
 	sc.LatMin, sc.LatMax = world.Dur(time.Microsecond), world.Dur(300*time.Microsecond)
 	ns := r.Range(1, 4)
 	for i := 0; i < ns; i++ {
@@ -355,7 +355,8 @@ func runC06(t *testing.T, sc *world.Scenario) *check.Result {
 						raw := r.Range(0, 100000)
 						st.W.Sensors[s.ID].Spec.Prog = constTemp(raw)
 					}
-					time.Sleep(time.Duration(kernel.Pick(r, 1, 10, 200, 1000, 5000)) * time.Millisecond)
+					// (the last three: a tick rate of minutes, a cycle behind a hanging driver, a resume from suspend)
+					time.Sleep(time.Duration(kernel.Pick(r, 1, 10, 200, 1000, 5000, 1, 10, 200, 1000, 5000, 61000, 600000, 7200000)) * time.Millisecond)
 					root := roots[r.Intn(len(roots))]
 					curve := st.Curves[root]
 					v, err := curve.Evaluate()
@@ -863,6 +864,19 @@ func genC07Twin(seed uint64, tier string) *world.Scenario {
 		keys := keysOfMap(m)
 		f.Driver.InitPwm = world.Quantise(&f.Driver, keys[r.Intn(len(keys))])
 	}
+	if hr := kernel.NewRand(seed, "c07twin.history"); hr.Bool(0.45) {
+		// a common history before the two worlds part: some cycles at another (mostly cooler) temperature, and
+		// from some read on the PWM attribute answers EBUSY / EAGAIN / EIO (a locked chip bank, a hanging
+		// driver) for a while or for good - in both worlds alike
+		sc.Params["preC"] = float64(kernel.Pick(hr, 0, hr.Range(0, c1), hr.Range(0, 255)))
+		sc.Params["preTicks"] = float64(hr.Range(1, 12))
+		if hr.Bool(0.8) {
+			sc.Faults = append(sc.Faults, world.FaultSpec{Op: "read", Target: "fan:" + f.ID + ":pwm", Nth: hr.Range(1, 30), Count: kernel.Pick(hr, 2, 6, 40, 1<<30),
+				Kind: kernel.Pick(hr, "ebusy", "ebusy", "eagain", "eio"), OnlyFlags: "upd"})
+		}
+		sc.Horizon += world.Dur(time.Duration(sc.Params["preTicks"]) * sc.Tick.D())
+		sc.Variant += "|history"
+	}
 	return sc
 }
 
@@ -881,6 +895,10 @@ func runC07Twin(t *testing.T, sc *world.Scenario) *check.Result {
 	run := func(temp int) []*Cycle {
 		s2 := sc.Clone()
 		s2.Sensors[0].Prog = constTemp(temp)
+		if pt, ok := sc.Params["preTicks"]; ok {
+			at := 3500*time.Millisecond + time.Duration(pt)*sc.Tick.D()
+			s2.Sensors[0].Prog = world.TempProg{Kind: "steps", Base: tempForCurve(int(sc.Params["preC"])), Steps: []world.TempStep{{T: world.Dur(at), V: temp}}}
+		}
 		var cycles []*Cycle
 		res := runL1(t, s2, func(st *stage.Stage, res *check.Result) []Oracle {
 			st.W.Sampler = cycleSampler(st)
